@@ -382,7 +382,7 @@ theorem createPlan_wf {inp vals : Input} {dt : TypeArg ⊕ DType} {n : Nat} (hwf
       · simp at h
       · split at h
         · simp at h
-        · simp at h; rw [← h.2.2]; rfl
+        · simp at h; rw [← h.2.2]; exact hwf
   | scalar v =>
     simp only [createPlan] at h
     split at h
@@ -391,7 +391,9 @@ theorem createPlan_wf {inp vals : Input} {dt : TypeArg ⊕ DType} {n : Nat} (hwf
       · simp at h
       · split at h
         · simp at h
-        · simp at h; rw [← h.2.2]; rfl
+        · simp at h; rw [← h.2.2]
+          simp only [Input.WF] at hwf ⊢
+          simp [hwf]
   | ndarray dt' shape data =>
     simp only [createPlan] at h
     split at h
@@ -482,7 +484,8 @@ theorem step_trans {st : State} {op : Op} (hwf : op.WF = true) : Trans st (step 
     | S ty => exact createSection_trans
     | val inp =>
       simp only [step, lift, setitem]
-      have hdw : inp.asListData.WF = true := by cases inp <;> rfl
+      have hdw : inp.asListData.WF = true := by
+        cases inp <;> simp_all [Input.asListData, Input.WF, Input.asElem, PyVal.WF, Op.WF]
       split
       · exact createProperty_trans hdw
       · split
